@@ -1,6 +1,6 @@
 (* C14 (set half) — property theorems.  Only statements, [exact lemma] and Print Assumptions. *)
-From Coq Require Import NArith List Bool.
-From FV Require Import C14.Model C14.Proofs.
+From Coq Require Import NArith List Bool Sorting.Sorted.
+From FV Require Import C14.Model C14.Proofs C14.SetObs C14.SetAfter C14.SetRange.
 Import ListNotations.
 Open Scope N_scope.
 
@@ -26,7 +26,82 @@ Theorem c14_remove_returns_present : forall st sp t v, Rep2 st sp ->
   snd (apply_op st (ORemove t v)) = Some (sel t sp v).
 Proof. exact remove_returns_present. Qed.
 
+(* every operation sequence also keeps the stronger representation invariant (pages are 512-bit, majors strictly
+   ascending, cached length = sum of page populations), so the observation theorems below apply to fst/snd (run ops) *)
+Theorem c14_run_invariants : forall ops,
+  Rep (fst (run ops)) (fst (run_spec ops)) /\ wfi (fst (run ops)) /\
+  Rep (snd (run ops)) (snd (run_spec ops)) /\ wfi (snd (run ops)).
+Proof. exact run_rep_wfi. Qed.
+
+(* the stored bit set, iterated, is the strictly ascending enumeration of exactly the members (inclusive mode) or
+   exactly the non-members (inverted mode), and the cached length is the length of that enumeration *)
+Theorem c14_stored_enumeration : forall x f, Rep x f -> wfi x ->
+  StronglySorted N.lt (bs_iter (storage x)) /\
+  (forall v, In v (bs_iter (storage x)) <-> f v = negb (is_inverted x)) /\
+  blen (storage x) = N.of_nat (length (bs_iter (storage x))).
+Proof. exact stored_enumeration. Qed.
+
+(* inclusive sets: forward / backward iteration (every prefix), and len = number of members *)
+Theorem c14_inclusive_iteration : forall dmax s f k, Rep (Incl s) f -> wfi (Incl s) ->
+  is_iter dmax (Incl s) k = firstn k (bs_iter s) /\
+  is_iter_back dmax (Incl s) k = firstn k (rev (bs_iter s)) /\
+  StronglySorted N.lt (bs_iter s) /\ (forall v, In v (bs_iter s) <-> f v = true) /\
+  is_len dmax (Incl s) = N.of_nat (length (bs_iter s)).
+Proof. exact incl_iter_spec. Qed.
+
+(* iter_after(v) of an inclusive set: every prefix is a prefix of the ascending members greater than v *)
+Theorem c14_inclusive_iter_after : forall dmax s f v k, Rep (Incl s) f -> wfi (Incl s) ->
+  is_iter_after dmax (Incl s) v k = firstn k (filter (fun x => v <? x) (bs_iter s)) /\
+  StronglySorted N.lt (bs_iter s) /\ (forall w, In w (bs_iter s) <-> f w = true).
+Proof. exact incl_iter_after_spec. Qed.
+
+(* first = minimum, last = maximum, None iff empty (inclusive sets) *)
+Theorem c14_inclusive_first_is_min : forall dmax s f, Rep (Incl s) f -> wfi (Incl s) ->
+  match is_first dmax (Incl s) with
+  | Some m => f m = true /\ forall v, f v = true -> m <= v
+  | None => forall v, f v = false
+  end.
+Proof. exact incl_first_spec. Qed.
+Theorem c14_inclusive_last_is_max : forall dmax s f, Rep (Incl s) f -> wfi (Incl s) ->
+  match is_last dmax (Incl s) with
+  | Some m => f m = true /\ forall v, f v = true -> v <= m
+  | None => forall v, f v = false
+  end.
+Proof. exact incl_last_spec. Qed.
+Theorem c14_inclusive_is_empty : forall dmax s f, Rep (Incl s) f -> wfi (Incl s) ->
+  (is_is_empty dmax (Incl s) = true <-> forall v, f v = false).
+Proof. exact incl_is_empty_spec. Qed.
+
+(* len, both modes: there is a strictly ascending list of exactly the members (inclusive) / exactly the excluded
+   values (inverted) and len is its length, resp. count - its length.
+   PARTIAL for inverted sets: the full statement "len = number of members inside the domain" additionally needs
+   "every excluded value lies in [0,dmax]" (true when all operation arguments lie in the domain; not proved). *)
+Theorem c14_len_partial : forall dmax x f, Rep x f -> wfi x ->
+  exists l, StronglySorted N.lt l /\ (forall v, In v l <-> f v = negb (is_inverted x)) /\
+            is_len dmax x = if is_inverted x then dmax + 1 - N.of_nat (length l) else N.of_nat (length l).
+Proof. exact len_spec. Qed.
+
+(* RangeSet, BOUNDED (complete finite domain, by evaluation of the model): every insert sequence of length <= 3 over
+   all ranges with bounds in [0,5] (reversed ones included) yields a sorted, disjoint, non-adjacent list covering
+   exactly the union of the well-formed inserted ranges; every intersection of two such sets (length <= 2, bounds in
+   [0,3]) is canonical and covers exactly the pointwise meet.  The unbounded statements are not proved. *)
+Theorem c14_rangeset_canonical_bounded : forall ins, In ins (all_seqs 3 (all_ranges 5)) -> canon_ok 5 ins = true.
+Proof. exact rangeset_canonical_bounded_all. Qed.
+Theorem c14_rangeset_intersection_bounded : forall p,
+  In p (list_prod (all_seqs 2 (all_ranges 3)) (all_seqs 2 (all_ranges 3))) -> inter_ok 3 p = true.
+Proof. exact rangeset_intersection_bounded_all. Qed.
+
 Print Assumptions c14_intset_refines.
 Print Assumptions c14_step_refines.
 Print Assumptions c14_insert_returns_newly.
 Print Assumptions c14_remove_returns_present.
+Print Assumptions c14_run_invariants.
+Print Assumptions c14_stored_enumeration.
+Print Assumptions c14_inclusive_iteration.
+Print Assumptions c14_inclusive_first_is_min.
+Print Assumptions c14_inclusive_last_is_max.
+Print Assumptions c14_inclusive_is_empty.
+Print Assumptions c14_len_partial.
+Print Assumptions c14_rangeset_canonical_bounded.
+Print Assumptions c14_rangeset_intersection_bounded.
+Print Assumptions c14_inclusive_iter_after.
